@@ -258,7 +258,7 @@ func init() {
 		ID:    "C11",
 		Units: serveUnits,
 		Runs: []Run{
-			{Pkg: "fasthttp", Func: "vhC11NoLeftovers"},
+			{Pkg: "fasthttp", Func: "vhC11Differential"},
 		},
 		Assume: []string{serveAssume,
 			"one connection, two requests: request 1 from 4 kinds (form POST, chunked PUT, GET with cookies/UA, POST with Expect: 100-continue) carrying two symbolic token bytes in its headers, cookie, query and body, and a handler that consumes the body and dirties user values, response status, headers, cookie, content type and body; request 2 is a fixed GET; ReduceMemoryUsage, StreamRequestBody and segmenting on/off",
